@@ -69,4 +69,39 @@ def gen_mixed(rng, **kw):
 
 
 def main(tier, seed, replay=None):
-    return world_check(PROP, THEOREMS, tier, seed, [monitor_null_build, monitor_unrelated], scen_gen=gen_mixed, replay=replay)
+    def black_box(run):
+        if replay:
+            return
+        import taskleg
+        n2, out_ = build_n2_binary()
+        if n2 is None:
+            run.tie("n2 build", out_[-1000:])
+            return
+        taskleg.selfwrite_leg(run, n2)
+        builddir_leg(run, n2)
+        run.coverage["black_box_legs"] = "command rewriting its own reported dependency; builddir bound only inside a subninja'd file"
+
+    return world_check(PROP, THEOREMS, tier, seed, [monitor_null_build, monitor_unrelated], scen_gen=gen_mixed, replay=replay, before_finish=black_box)
+
+
+def builddir_leg(run, n2):
+    """adding a subninja'd file that binds `builddir` in its own scope is an unrelated edit: the log stays where it is, nothing re-runs"""
+    import shutil, tempfile
+    import taskleg
+    d = tempfile.mkdtemp(prefix="n2verif-c03-%d-" % os.getpid())
+    try:
+        top = "rule t\n  command = echo $out >> ran.log; touch $out\nbuild a: t\nbuild b: t a\n"
+        taskleg.write(d, "build.ninja", top)
+        taskleg.write(d, "vendor/lib.ninja", "builddir = vendor/out\nbuild vendor/lib: t\n")
+        rc, out = taskleg.n2run(n2, d, [])
+        taskleg.write(d, "build.ninja", top + "subninja vendor/lib.ninja\n")
+        rc, out = taskleg.n2run(n2, d, [])
+        ran = open(os.path.join(d, "ran.log")).read().split()
+        where = {"project": "top-level manifest without builddir; then `subninja vendor/lib.ninja`, which binds builddir in its own scope", "ran": ran,
+                 "output": out[-300:]}
+        if rc != 0 or ran != ["a", "b", "vendor/lib"]:
+            run.report_failure(None, "after adding an unrelated subninja line the commands run were %r (expected a, b once, then vendor/lib only)" % ran, where)
+        if os.path.exists(os.path.join(d, "vendor", "out", ".n2_db")):
+            run.report_failure(None, "a builddir bound inside a subninja'd file moved the log to vendor/out/.n2_db", where)
+    finally:
+        shutil.rmtree(d, ignore_errors=True)
